@@ -50,7 +50,7 @@ def shrink(prop, case, status, budget=150, seconds=90):
                 r = prop.evaluate([cand])[0]
             except Exception:        # noqa
                 continue
-            if r["status"] == status:
+            if r["status"] == status and prop.known_finding(cand, r) is None:
                 cur = cand
                 progress = True
                 break
@@ -213,6 +213,11 @@ def replay(prop, path):
             {k: payload.get(k) for k in ("kind", "proof_problems", "source_scan", "build", "crosscheck")})[:1500])
         return 1
     r = prop.evaluate([case])[0]
+    kf = prop.known_finding(case, r) if r["status"] != "ok" else None
+    if kf:
+        print("REPLAY-STATUS known-finding")
+        print("KNOWN-FINDING: property=%s %s" % (prop.pid, kf))
+        return 0
     print("REPLAY-STATUS %s" % r["status"])
     print(json.dumps({"status": r["status"], "detail": r["detail"]}, default=str)[:20000])
     if r["status"] != "ok":
